@@ -149,11 +149,14 @@ def sampling(cases, key_idx=(2, 0, 1)):
                 o["fails"].append(("rng_not_advanced", f"sample() returned a distribution with the SAME rng state {onp.asarray(k).tolist()}: {desc}", replay))
             # --- reference for the key threading of the model (indices taken from the extracted kernels)
             ks = jax.random.split(k, nsplit)
-            raw = onp.asarray(d.dist.sample(sample_shape=shp, seed=ks[i_seed]))
+            raw = onp.asarray(d.dist.sample(sample_shape=() if shp is None else shp, seed=ks[i_seed]))
             ref = onp.maximum(raw, 0.0)
             nneg = int((raw < 0).sum())
             _cnt(o, "raw_negative_samples", nneg)
-            if s.shape == ref.shape and not onp.allclose(s, ref, rtol=1e-6, atol=1e-9):
+            locs = spec["loc"] if isinstance(spec.get("loc"), list) else [spec.get("loc", 0.0)]
+            scs = spec["scale"] if isinstance(spec.get("scale"), list) else [spec.get("scale", 0.0)]
+            mag = max(abs(v) for v in locs) + 6 * max(scs)
+            if s.shape == ref.shape and not onp.allclose(s, ref, rtol=1e-5, atol=1e-6 * mag + 1e-12):
                 o["corr"].append(("sample_key_threading", f"samples are not clip(dist.sample(seed=split(rng,{nsplit})[{i_seed}]),0): impl {s.reshape(-1)[:3]} ref {ref.reshape(-1)[:3]}: {desc}", dict(case=c)))
             if not onp.array_equal(onp.asarray(d1.rng), onp.asarray(ks[i_new])):
                 o["corr"].append(("sample_key_threading", f"new rng state is not split(rng,{nsplit})[{i_new}]: {desc}", dict(case=c)))
@@ -179,7 +182,10 @@ def sampling(cases, key_idx=(2, 0, 1)):
                     o["fails"].append(("rng_not_advanced", f"two successive sample() calls returned identical arrays {seq[0].reshape(-1)[:3]}: {desc}", replay))
             if c.get("jit"):
                 dj, sj = jax.jit(lambda dd: dd.sample(shp))(d)
-                if not onp.allclose(onp.asarray(sj), s, rtol=1e-6, atol=1e-9) or not onp.array_equal(onp.asarray(dj.rng), onp.asarray(d1.rng)):
+                locs = spec["loc"] if isinstance(spec.get("loc"), list) else [spec.get("loc", 0.0)]
+                scs = spec["scale"] if isinstance(spec.get("scale"), list) else [spec.get("scale", 0.0)]
+                mag = max(abs(v) for v in locs) + 6 * max(scs)  # XLA may fuse loc + scale*eps (fma): compare at the magnitude of the operands, not of the (cancelling) result
+                if not onp.allclose(onp.asarray(sj), s, rtol=1e-5, atol=1e-6 * mag + 1e-12) or not onp.array_equal(onp.asarray(dj.rng), onp.asarray(d1.rng)):
                     o["fails"].append(("sample_pure", f"jit(sample) differs from eager sample: {desc}", replay))
                 _cnt(o, "jit")
             if len(o["samples"]) < 1:
@@ -219,7 +225,7 @@ def quantiles(cases):
             scale_all = (spec["scale"] if isinstance(spec.get("scale"), list) else [spec.get("scale", 0.0)])
             mag = max([abs(x) for x in xs] + [1e-9])
             # ---- monotone
-            slack = 0.0 if k in ("mix", "det", "trainable") else 4e-7 * (mag + max(scale_all))
+            slack = 0.0 if k in ("mix", "det", "trainable") else 4e-7 * (mag + abs(spec["loc"]) + 4 * max(scale_all))
             for i in range(len(qs) - 1):
                 if xs[i] > xs[i + 1] + slack:
                     o["fails"].append(("quantile_monotone", f"quantile({qs[i]})={xs[i]} > quantile({qs[i+1]})={xs[i+1]}: {desc}", replay))
@@ -235,15 +241,15 @@ def quantiles(cases):
                         o["fails"].append(("quantile_cdf", f"TrainableDist(delay={spec['delay']}).quantile({q}) = {x}", replay))
             elif k == "normal":
                 for q, x in zip(qs, xs):
-                    tol = 2e-5 + 0.4 * (3e-7 * abs(x) / spec["scale"])
+                    tol = 2e-5 + 0.4 * (3e-7 * (abs(spec["loc"]) + 4 * spec["scale"] + abs(x)) / spec["scale"])  # float32 rounding of loc, z*scale and x, seen through the CDF slope
                     F = true_cdf(spec, x)
                     if abs(F - q) > tol:
                         o["fails"].append(("quantile_cdf", f"Normal quantile({q}) = {x} but CDF there is {F:.6f}: {desc}", replay))
                     z = float(jax.scipy.special.ndtri(jnp.float32(q)))
-                    o["model"].append(("c15.normal", dict(z=z, scale=spec["scale"], loc=spec["loc"], z999=z999, z001=z001), dict(q=x), dict(case=c, q=q), (1e-5, 1e-8)))
+                    o["model"].append(("c15.normal", dict(z=z, scale=spec["scale"], loc=spec["loc"], z999=z999, z001=z001), dict(q=x), dict(case=c, q=q), (1e-5, 1e-8 + 3e-7 * (abs(spec["loc"]) + 4 * spec["scale"]))))
                 # vectorised call agrees with the scalar calls
                 xv = onp.asarray(d.quantile(jnp.array(qs, dtype=jnp.float32)))
-                if xv.shape != (len(qs),) or not onp.allclose(xv, xs, rtol=1e-5, atol=1e-8):
+                if xv.shape != (len(qs),) or not onp.allclose(xv, xs, rtol=1e-5, atol=1e-8 + 3e-7 * (abs(spec["loc"]) + 4 * spec["scale"])):
                     o["fails"].append(("quantile_vector", f"quantile(array) = {xv.tolist()} vs scalar calls {xs}: {desc}", replay))
                 if spec["loc"] <= 2 * spec["scale"]:
                     o["nontriv"].append(dict(dist=spec, qs=qs))
@@ -253,7 +259,7 @@ def quantiles(cases):
                 gmin, gmax = qmin * 0.9, qmax * 1.1
                 step = (gmax - gmin) / 999.0
                 for q, x in zip(qs, xs):
-                    tol = 2e-5 + pdf_bound(spec) * 3e-7 * abs(x)
+                    tol = 2e-5 + pdf_bound(spec) * 3e-7 * (abs(x) + max(spec["loc"]))
                     F_hi = true_cdf(spec, x)
                     F_lo = true_cdf(spec, x - 1.001 * step)
                     if not (F_lo - tol <= q <= F_hi + tol):
@@ -364,13 +370,13 @@ def mixcdf(cases):
             cd = dist.components_distribution
             cdfs = onp.asarray(cd.cdf(jnp.asarray(base_grid)[..., None]))  # (n, K) float32, as the implementation computes them
             for p, x in zip(ps, xs):
-                tol = 2e-5
+                tol = 2e-5 + pdf_bound(spec) * 3e-7 * (abs(x) + max(spec["loc"]))
                 F_hi, F_lo = true_cdf(spec, x), true_cdf(spec, x - 1.001 * step)
                 if not (F_lo - tol <= p <= F_hi + tol):
                     o["fails"].append(("quantile_cdf", f"mixture_distribution_quantiles(p={p}) = {x:.6f} on a {n}-point grid [{gmin},{gmax}]: true CDF there {F_hi:.5f}, one cell below {F_lo:.5f}: dist={spec}", replay))
             sel = list(range(0, n, max(1, n // 12)))
             o["model"].append(("c15.mixcdf", dict(cdfs=[[float(v) for v in cdfs[i]] for i in sel], ws=[float(onp.float32(w)) for w in spec["w"]]),
-                               dict(cdf=[float(true_cdf(spec, float(base_grid[i]))) for i in sel]), dict(case=c), (1e-4, 2e-6)))
+                               dict(cdf=[float(true_cdf(spec, float(base_grid[i]))) for i in sel]), dict(case=c), (2e-4, 1e-5)))
             if len(set(round(w, 6) for w in spec["w"])) > 1:
                 o["nontriv"].append(dict(dist=spec, ps=ps))
         except Exception as ex:
@@ -417,14 +423,14 @@ def nodes(cases):
                     o["fails"].append(("default_delay", f"{what} default expected delay {dl} != delay_dist.quantile(0.99) = {want} for {spec}", replay))
                 if spec is not None and spec["kind"] in ("normal", "mix"):
                     if spec["kind"] == "normal":
-                        lo_ok = abs(true_cdf(spec, dl) - 0.99) <= 2e-5 + 0.4 * 3e-7 * abs(dl) / spec["scale"]
+                        lo_ok = abs(true_cdf(spec, dl) - 0.99) <= 2e-5 + 0.4 * 3e-7 * (abs(dl) + abs(spec["loc"]) + 4 * spec["scale"]) / spec["scale"]
                         F = true_cdf(spec, dl)
                     else:
                         z = ND.inv_cdf(0.999)
                         gmin = min(m - z * s for s, m in zip(spec["scale"], spec["loc"])) * 0.9
                         gmax = max(m + z * s for s, m in zip(spec["scale"], spec["loc"])) * 1.1
                         step = (gmax - gmin) / 999.0
-                        tol = 2e-5 + pdf_bound(spec) * 3e-7 * abs(dl)
+                        tol = 2e-5 + pdf_bound(spec) * 3e-7 * (abs(dl) + max(spec["loc"]))
                         F = true_cdf(spec, dl)
                         lo_ok = true_cdf(spec, dl - 1.002 * step) - tol <= 0.99 <= F + tol
                     if not lo_ok:
